@@ -938,6 +938,8 @@ def shrink(plan):
                 yield p
     for name in sorted(plan['dicts']):
         d = plan['dicts'][name]
+        if not isinstance(d, dict):
+            continue
         for k in sorted(d):
             if k in ('fs', 'f_range'):
                 continue
